@@ -43,7 +43,39 @@ def build(ctx):
     return w
 
 
+def build_optinv(ctx):
+    """as build(), but whether provider 1 has any inventory is symbolic"""
+    w = World(ctx)
+    for rc in ('VCPU', 'DISK_GB'):
+        w.rc(rc)
+    for t in (T1, T2):
+        w.trait(t)
+    w.agg(1)
+    w.agg(2)
+    w.project('proj')
+    w.user('user')
+    w.provider(1, generation=ctx.int('stored_gen', 0))
+    w.provider(2, generation=0)
+    w.inventory(1, 'VCPU', total=ctx.int('total', 1), reserved=0,
+                min_unit=1, max_unit=ctx.int('max', 1), step_size=1,
+                allocation_ratio=1.0)
+    w.inventory(2, 'VCPU', present=True, total=8, reserved=0, min_unit=1,
+                max_unit=8, step_size=1, allocation_ratio=1.0)
+    w.has_trait(1, T1)
+    w.in_agg(1, 1)
+    return w
+
+
 RP = '/resource_providers/' + U(1)
+
+
+def put_invs_empty(n):
+    """replace the inventories by none"""
+    def fn(ctx, w):
+        return app.call('PUT', RP + '/inventories', {
+            'resource_provider_generation': ctx.int('g%d' % n),
+            'inventories': {}}, version='1.36')
+    return Req('put_invs_empty%d' % n, fn, gen='g%d' % n, provider=1)
 
 
 def put_invs(n):
@@ -154,7 +186,7 @@ def put_aggs_new(n):
     return Req('put_aggs_new%d' % n, fn, gen='g%d' % n, provider=1)
 
 
-def make_family(name, reqs, fault_kinds=None):
+def make_family(name, reqs, fault_kinds=None, build=build):
     def path(ctx):
         app.setup()
         pre, results, final, sched, writes = conc.run_concurrent(
@@ -215,9 +247,20 @@ def families(tier):
         # recorded) with another guarded write committing in between
         make_family('put_aggs_new+put_aggs/duplicate',
                     [put_aggs_new(1), put_aggs(2)], fault_kinds=('duplicate',)),
+        # a write that changes nothing (no inventory before, none after)
+        # is still a guarded write
+        make_family('optinv/put_invs_empty+put_traits',
+                    [put_invs_empty(1), put_traits(2)], build=build_optinv),
     ]
     if tier == 'thorough':
         fams += [
+            make_family('optinv/put_invs_empty+put_aggs',
+                        [put_invs_empty(1), put_aggs(2)], build=build_optinv),
+            make_family('optinv/put_invs_empty+put_invs_empty',
+                        [put_invs_empty(1), put_invs_empty(2)],
+                        build=build_optinv),
+            make_family('optinv/put_invs+put_invs',
+                        [put_invs(1), put_invs(2)], build=build_optinv),
             make_family('put_inv+delete_traits', [put_inv(1),
                                                   delete_traits(2)]),
             make_family('reshape+put_invs', [reshape(1), put_invs(2)]),
